@@ -179,6 +179,12 @@ impl C03 {
         let ts = gamedig::TimeoutSettings::new(None, None, None, retries).ok();
         let a = addr(25565);
         let ip = IpAddr::V4(Ipv4Addr::new(10, 1, 2, 3));
+        // the per-game entry point takes an optional port: absent = each variant's own default port
+        let game_port: Option<u16> = match cx.rng.below(3) {
+            0 => None,
+            1 => Some(25565),
+            _ => Some(cx.rng.range(1024, 65535) as u16),
+        };
         cx.eval();
         let mut server = McServerModel::new(answers, na, g.clone());
         if legacy_only {
@@ -187,7 +193,7 @@ impl C03 {
         let run = if legacy_only {
             run_with(server, DEFAULT_STEP_LIMIT, || minecraft::protocol::query_legacy(&a, ts))
         } else if via_game_module {
-            run_with(server, DEFAULT_STEP_LIMIT, || minecraft::query(&ip, Some(25565)))
+            run_with(server, DEFAULT_STEP_LIMIT, || minecraft::query(&ip, game_port))
         } else {
             run_with(server, DEFAULT_STEP_LIMIT, || minecraft::protocol::query(&a, ts, None))
         };
@@ -249,6 +255,16 @@ impl C03 {
                     cx.violation("C03 auto connection-order", || detail(format!("connections {kinds:?} expected {:?}", &full[.. upto]), &log));
                     return;
                 }
+                // ports: the given one for every variant, or each variant's documented default
+                if via_game_module && !legacy_only {
+                    let ports: Vec<u16> = log.iter().filter_map(|e| match e { Ev::Connect { addr, .. } => Some(addr.port()), _ => None }).collect();
+                    let exp_ports: Vec<u16> = order[.. upto].iter().map(|v| game_port.unwrap_or(if *v == Variant::Bedrock { 19132 } else { 25565 })).collect();
+                    cx.count(if game_port.is_none() { "game-module-default-ports-checked" } else { "game-module-given-port-checked" });
+                    if ports != exp_ports {
+                        cx.violation(format!("C03 auto wrong-port port-given={}", game_port.is_some()), || detail(format!("ports {ports:?} expected {exp_ports:?}"), &log));
+                        return;
+                    }
+                }
                 // and each connection carried its variant's request
                 let reqs: Vec<Variant> = run.server.borrow().requests.iter().map(|(_, v, _)| *v).collect();
                 let exp_reqs: Vec<Variant> = order[.. upto].iter().copied().filter(|v| !(subset & (1 << (*v as u32)) == 0 && na[*v as usize] == NonAnswer::Refuse && *v != Variant::Bedrock)).collect();
@@ -267,6 +283,14 @@ impl C03 {
 
 impl Check for C03 {
     fn id(&self) -> &'static str { "C03" }
+    fn memcheck_plan(&self, tier: Tier) -> Option<(crate::core::framework::MemMode, Vec<(u64, u64)>)> {
+        if tier != Tier::Thorough {
+            return None;
+        }
+        let total = self.total_cases(tier);
+        let n = 1000u64.min(total / 16);
+        Some((crate::core::framework::MemMode::Harness, (0 .. 16).map(|i| (i * (total / 16), n)).collect()))
+    }
     fn miri_plan(&self, tier: Tier) -> Option<Vec<(u64, u64)>> {
         if tier != Tier::Thorough {
             return None;
@@ -274,7 +298,7 @@ impl Check for C03 {
         Some((0 .. 16).map(|i| (i * 24, 24)).collect())
     }
     fn rule(&self) -> String {
-        "decoding: random Java (JSON with optional members, escapes, chat objects), Bedrock (6-12 fields), legacy 1.6 / 1.4 / beta 1.8 states encoded by independent models and decoded by the matching query (description compared as JSON); the 1.4 ping answered in the 1.6 layout must return that status too. order: a reactive server speaking each of the 32 subsets of the five variants, with hostile non-answers (silence, empty close, garbage, truncation, refused connection) for the others; protocol::query, games::minecraft::query and query_legacy must return the first variant in documented order, labelled as such, AutoQuery iff none, and open connections in exactly that order. non-trivial = all oracles passed; distinct by stream bytes / (subset, non-answers, state)".into()
+        "decoding: random Java (JSON with optional members, escapes, chat objects), Bedrock (6-12 fields), legacy 1.6 / 1.4 / beta 1.8 states encoded by independent models and decoded by the matching query (description compared as JSON); the 1.4 ping answered in the 1.6 layout must return that status too. order: a reactive server speaking each of the 32 subsets of the five variants, with hostile non-answers (silence, empty close, garbage, truncation, refused connection) for the others; protocol::query, games::minecraft::query and query_legacy must return the first variant in documented order, labelled as such, AutoQuery iff none, and open connections in exactly that order (the per-game entry point on the given port, or on each variant's default port 25565 / 19132 when none is given). non-trivial = all oracles passed; distinct by stream bytes / (subset, non-answers, state)".into()
     }
     fn assumptions(&self) -> Vec<String> {
         vec![
@@ -310,6 +334,7 @@ impl Check for C03 {
             "subsets_seen_protocol_query": m.shapes.keys().filter(|k| k.starts_with("protocol::query|subset=")).count(),
             "subsets_seen_game_module": m.shapes.keys().filter(|k| k.starts_with("games::minecraft::query|subset=")).count(),
             "subsets_seen_query_legacy": m.shapes.keys().filter(|k| k.starts_with("query_legacy|subset=")).count(),
+            "game_module_default_ports_checked": m.counters.get("game-module-default-ports-checked"),
             "legacy_1_4_request_answered_in_1_6_layout_ok": m.counters.get("legacy-1.4-request-1.6-layout-ok"),
         })
     }
